@@ -22,7 +22,9 @@ SPEC = dict(
           "(kindmatch t.a / t.* / t.b, priorities 1..3, fail-on-first-error on or off), ev events submitted by h goroutines "
           "(AddEventAndWait, or bursts of AddEvent with one root monitor per event); every event carries its id and per sink an "
           "instruction: succeed / raise(T_<sink>_<id>, d<id>, id) / return id / Go function failing with E_<sink>_<id>; every "
-          "invocation echoes the id through `event`, a local and a shared global function (and increments a mutex-protected global). "
+          "invocation echoes the id through `event`, a local and a shared global function (and increments a mutex-protected global); "
+          "in a third of the cases the DECLARING scope defines variables named `event` and `v` (the names an invocation scope / a "
+          "call frame stores before it is linked to its parent) which must stay untouched, in a third the sink reads `event`, pauses, reads again. "
           "Compared per event with the report dictated by its payload: result = lost, duplicated, mis-attributed errors "
           "(type, detail, data, attached environment), wrong/missing/extra echoes. Non-trivial = at least 2 workers, "
           "at least 2 events in flight and at least 100 events."),
@@ -47,7 +49,10 @@ META = dict(
                 "variable, each invocation's outcome, `event` and locals equal those of running it alone, modulo the lock-protected globals "
                 "it explicitly shares (isolation); for the closure model every completed invocation returns exactly its own outcome — nothing "
                 "lost, duplicated or mis-attributed (errors_attributed); the unrepaired captured `err` loses and mis-attributes errors (witness). "
-                "Tie to /repo: captured writes extracted from the source on every run (obligation capturedWrites_nil by decide); overlapping "
+                "`event` is invocation-local when it is stored before the scope gets its parent, also if the declaring scope has a variable of that name "
+                "(event_is_local; parent-first shares it: witness). "
+                "Tie to /repo: captured writes and the order of scope set-up calls extracted from the source on every run (obligations "
+                "capturedWrites_nil, scope_setup_local by decide); overlapping "
                 "invocations compared with per-event expected reports."),
     level_note=("Trusted: Lean kernel + propext/Classical.choice/Quot.sound; the syntactic extractor (no alias analysis); sequential "
                 "consistency. The theorem is about the abstract invocation model, not about a Lean port of the evaluator; the recording of "
